@@ -5,7 +5,7 @@
    and f3 (inside the sub-directory d), descriptor sessions, operations of the ROOT directory, operations of
    the SUB-directory d (metadata, listing, flushing: child->parent propagation against the parent->child
    order of the root's listing/flush), Root/ops.go entry points.  The state-changing directory operations
-   (MkdirNew, AddChild, SubAddChild, DirFlush, SubFlush, Mv, MvSub) take part at PROGRAM level: their lock
+   (MkdirNew, MkdirOps, AddChild, SubAddChild, PutNodeSub, DirFlush, FlushMemFree, SubFlush, Mv, MvSub) take part at PROGRAM level: their lock
    program as recorded alone is interleaved with the others; what they change in the directory is not
    modelled. *)
 EXTENDS MFSLocks
@@ -32,7 +32,8 @@ FSeq(f) == <<WSess(f), WnSess(f), RSess(f), S("FileFlush", f), S("FileSync", f),
 \* operations of the root directory (and Root / ops.go entry points that go through it)
 DSeq == <<S("List", "f1"), S("ListNames", "f1"), S("Lookup", "f1"), S("Mkdir", "f1"), S("Unlink", "f1"),
           S("DirGetNode", "f1"), S("DirFlush", "f1"), S("RootFlush", "f1"), S("RootSetMode", "f1"),
-          S("AddChild", "f1"), S("MkdirNew", "f1"), S("Mv", "f2"), S("MvSub", "f1")>>
+          S("AddChild", "f1"), S("MkdirNew", "f1"), S("Mv", "f2"), S("MvSub", "f1"),
+          S("RootClose", "f1"), S("FlushMemFree", "f1"), S("PutNodeSub", "f1"), S("MkdirOps", "f1")>>
 \* operations of the sub-directory d
 SubDSeq == <<S("SubSetMode", "f1"), S("SubSetModTime", "f1"), S("ChmodSub", "f1"), S("TouchSub", "f1"),
             S("SubMode", "f1"), S("SubModTime", "f1"), S("SubGetNode", "f1"), S("SubFlush", "f1"),
